@@ -43,6 +43,8 @@ def run(R):
     R.lean(["C11", "C11Header", "C11Concat"])
     import hunted
     hunted.run(R, "C11")
+    import inventory
+    inventory.check(R)      # structural tie: the keywords the C++ parser knows = the keywords the model knows
     quick = R.tier == "quick"
     rng = R.rng
     reqs, dist = ties.t4_requests(rng, 9000 if quick else 150000)
